@@ -374,6 +374,10 @@ def rule_assert_preconditions_and_bounded_work(ctx, mir, rid="R15.12"):
             a1 = f.deep(t["args"][1])
             key = f"{f.key}|eq_case_insensitive#{n}"
             r.inst(key, sample={"lowercased_argument": a1[:80]})
+            a0 = f.deep(t["args"][0])
+            if a0.startswith('const b"') and not a1.startswith('const b"'):
+                r.violate(key, f"{f.key} passes a constant ({a0[:40]}) as the mixed-case side and `{a1[:60]}` as the `lowercased` side of eq_case_insensitive: the arguments are swapped - a name with an upper-case letter trips the debug assertion (panic in debug builds) and compares case-sensitively in release builds", f.loc())
+                continue
             m = re.match(r'^const b"((?:[^"\\\\]|\\\\.)*)"', a1)
             if m:
                 if m.group(1) != m.group(1).lower():
